@@ -210,3 +210,40 @@ pub fn bad_masked_guard(data: &[u8; 256], x: u8) -> u8 {
         0
     }
 }
+
+
+// ---- a sorted clone keeps the elements of its source; a deduplicated one does not
+#[derive(Clone)]
+pub struct Win {
+    pub block: u8,
+    pub bitmap: Vec<u8>,
+}
+pub struct Maps {
+    pub maps: Vec<Win>,
+}
+impl Maps {
+    pub fn len(&self) -> usize {
+        self.maps.iter().map(|m| m.bitmap.len() + 2).sum()
+    }
+    pub fn good_write_sorted<T: std::io::Write>(&self, out: &mut T) -> Result<(), std::io::Error> {
+        let mut sorted = self.maps.clone();
+        sorted.sort_by(|a, b| a.block.cmp(&b.block));
+        for m in sorted.iter() {
+            out.write_all(&[m.block])?;
+            out.write_all(&[m.bitmap.len() as u8])?;
+            out.write_all(&m.bitmap)?;
+        }
+        Ok(())
+    }
+    pub fn bad_write_dedup<T: std::io::Write>(&self, out: &mut T) -> Result<(), std::io::Error> {
+        let mut sorted = self.maps.clone();
+        sorted.sort_by(|a, b| a.block.cmp(&b.block));
+        sorted.dedup_by_key(|m| m.block);
+        for m in sorted.iter() {
+            out.write_all(&[m.block])?;
+            out.write_all(&[m.bitmap.len() as u8])?;
+            out.write_all(&m.bitmap)?;
+        }
+        Ok(())
+    }
+}
